@@ -142,4 +142,377 @@ example : exTop.WF ∧ exTop.AllUnitary := by
   simp only [exTop, exMid, exInner, Comp.AllUnitary, Items.AllUnitary, and_true]
   refine ⟨⟨?_, ?_⟩, ?_, ?_⟩ <;> (try unfold IsUnitary) <;> decide +kernel
 
+/-! ## base change: parameters, symbolic entries
+
+For a ring homomorphism `φ` (evaluate the variable parameters at an environment; evaluate the
+entries of the symbolic matrix numerically) the matrix of the mapped circuit is the mapped matrix.
+So `compute_unitary(use_symbolic=True)` evaluated at the current values, and the matrix of a
+circuit with variable parameters under an environment, are the products of the leaf matrices
+evaluated the same way. -/
+
+theorem unitaryOf_map {S : Type} [CommRing R] [CommRing S] (φ : R →+* S) (m : ℕ) (items : Items R) :
+    unitaryOf ((Comp.circ m items).map φ) = (unitaryOf (Comp.circ m items)).map φ := by
+  show unitaryOf (Comp.circ m (items.map φ)) = _
+  rw [unitaryOf_circ, unitaryOf_circ, prodItems_map]
+  rfl
+
+theorem unitaryOf_map_leaf {S : Type} [CommRing R] [CommRing S] (φ : R → S) (k : ℕ)
+    (U : Matrix (Fin k) (Fin k) R) :
+    unitaryOf ((Comp.leaf k U).map φ) = (unitaryOf (Comp.leaf k U)).map φ := by
+  show unitaryOf (Comp.leaf k (U.map φ)) = _
+  rw [unitaryOf_leaf, unitaryOf_leaf]
+  rfl
+
+/-- the ranges reported by iteration do not depend on the coefficients, and the matrix of the
+mapped circuit is the ordered product of the mapped leaf matrices on those ranges -/
+theorem unitaryOf_map_eq_prod_flatten {S : Type} [CommRing R] [CommRing S] (φ : R →+* S) (m : ℕ)
+    (items : Items R) (hw : items.WF m) :
+    (prodItems m items).map φ = prodFlat m (Flat.mapC φ (flattenItems items)) := by
+  rw [← prodItems_map, ← flattenItems_map]
+  exact (prodItems_eq_prod_flatten m _ (Items.WF_map φ m items hw)).1
+
+/-! ## reference semantics (heap of circuit objects) -/
+
+/-- Evaluation that follows object references = product over the tree obtained by resolving the
+references (any pool, any fuel): every theorem about trees transfers to pools. -/
+theorem eval_eq_prodItems {S : Type} [CommRing S] (φ : R → S) (h : Heap R) (i : ℕ) :
+    eval φ h i = prodItems (h.msize i) ((snapshotItems h i).map φ) :=
+  evalV_eq φ h _ i
+
+theorem eval_eq_unitaryOf_snapshot {S : Type} [CommRing S] (φ : R → S) (h : Heap R) (i : ℕ) :
+    eval φ h i = unitaryOf ((snapshot h i).map φ) := by
+  rw [eval_eq_prodItems]
+  show _ = unitaryOf (Comp.circ (h.msize i) ((snapshotItems h i).map φ))
+  rw [unitaryOf_circ]
+
+/-- with a ring homomorphism on the coefficients: the mapped matrix of the snapshot -/
+theorem eval_eq_map_unitaryOf_snapshot {S : Type} [CommRing R] [CommRing S] (φ : R →+* S)
+    (h : Heap R) (i : ℕ) : eval φ h i = (unitaryOf (snapshot h i)).map φ := by
+  rw [eval_eq_prodItems, prodItems_map]
+  show _ = (unitaryOf (Comp.circ (h.msize i) (snapshotItems h i))).map φ
+  rw [unitaryOf_circ]
+  rfl
+
+/-- every operation keeps the invariant, hence every pool reachable by a history has it -/
+theorem exec_ok [Zero R] [One R] (ops : List (Op R)) : (exec (Heap.empty : Heap R) ops).Ok :=
+  exec_ok_of ops Heap.empty_ok
+
+/-- After ANY history of `new / add leaf / nest by reference / merge / barrier / copy`: the
+snapshot of every pool entry is well formed, the evaluated matrix is the ordered product of the
+(mapped) leaf matrices on the ranges iteration reports, and those ranges fit. -/
+theorem eval_after_any_history {S : Type} [CommRing R] [CommRing S] (φ : R →+* S)
+    (ops : List (Op R)) (i : ℕ) :
+    let h := exec (Heap.empty : Heap R) ops
+    (snapshot h i).WF ∧
+      eval φ h i = prodFlat (h.msize i) (Flat.mapC φ (flatten (snapshot h i))) ∧
+      Flat.Fits (flatten (snapshot h i)) (h.msize i) := by
+  intro h
+  have hOk : h.Ok := exec_ok ops
+  have hw : (snapshotItems h i).WF (h.msize i) := resolveIt_WF hOk _ i
+  refine ⟨snapshot_WF hOk i, ?_, ?_⟩
+  · rw [eval_eq_prodItems, prodItems_map]
+    exact unitaryOf_map_eq_prod_flatten φ _ _ hw
+  · exact (prodItems_eq_prod_flatten (h.msize i) _ hw).2
+
+/-- recursion through references never runs out of fuel: more fuel gives the same tree -/
+theorem snapshot_fuel_irrelevant {h : Heap R} (hOk : h.Ok) (i f : ℕ) (hf : h.rank i < f) :
+    resolve h f i = snapshot h i := by
+  simp only [resolve, snapshot, snapshotItems]
+  rw [resolveIt_stable hOk f (h.rank i + 1) i hf (by omega)]
+
+/-- a pool entry is the list of its own items, each reference standing for the *current*
+snapshot of the entry it points to (this is "nested by reference keeps growing") -/
+theorem snapshot_compositional {h : Heap R} (hOk : h.Ok) (i : ℕ) :
+    snapshot h i = .circ (h.msize i) (resolveItems (snapshot h) (h.items i)) := by
+  rw [snapshot, snapshotItems_eq hOk]
+
+/-! ### each heap operation refines the tree operation `addItem` -/
+
+theorem snapshot_step_leaf [Zero R] [One R] {h : Heap R} (hOk : h.Ok) (i off k : ℕ)
+    (U : Matrix (Fin k) (Fin k) R) (hok : (Op.leaf i off k U).ok h = true) :
+    snapshotItems (step h (.leaf i off k U)) i =
+      addItem (snapshotItems h i) off (.leaf k U) false := by
+  have hOk' := applyOp_ok hOk _ hok
+  simp only [step, hok, if_true, applyOp] at hOk' ⊢
+  simp only [Op.ok, Bool.and_eq_true, decide_eq_true_eq] at hok
+  rw [snapshotItems_push hOk]
+  · rfl
+  · intro p hp
+    simp only [List.mem_singleton] at hp
+    subst hp
+    simp only [HItem.Ok, Comp.WF, Comp.size, true_and]
+    omega
+
+theorem snapshot_step_nest [Zero R] [One R] {h : Heap R} (hOk : h.Ok) (i j off : ℕ)
+    (hok : (Op.nest (R := R) i j off).ok h = true) :
+    snapshotItems (step h (.nest i j off)) i =
+      addItem (snapshotItems h i) off (snapshot h j) false := by
+  simp only [step, hok, if_true, applyOp]
+  simp only [Op.ok, Bool.and_eq_true, decide_eq_true_eq] at hok
+  rw [snapshotItems_push hOk]
+  · rfl
+  · intro p hp
+    simp only [List.mem_singleton] at hp
+    subst hp
+    simp only [HItem.Ok]
+    omega
+
+/-- `add(…, merge=True)`, `//`, `//=`: splicing the child's *current* items = `addItem … true` on
+the snapshots -/
+theorem snapshot_step_merge [Zero R] [One R] {h : Heap R} (hOk : h.Ok) (i j off : ℕ)
+    (hok : (Op.merge (R := R) i j off).ok h = true) :
+    snapshotItems (step h (.merge i j off)) i =
+      addItem (snapshotItems h i) off (snapshot h j) true := by
+  simp only [step, hok, if_true, applyOp]
+  simp only [Op.ok, Bool.and_eq_true, decide_eq_true_eq] at hok
+  have hj := snapshotItems_eq hOk j
+  split
+  · next hnil =>
+    rw [hnil] at hj
+    rw [snapshotItems_push hOk]
+    · simp only [snapshot, hj, resolveItems, addItem]
+    · intro p hp
+      simp only [List.mem_singleton] at hp
+      subst hp
+      simp only [HItem.Ok]
+      omega
+  · next x xs hx =>
+    rw [hx] at hj
+    rw [snapshotItems_push hOk, resolveItems_shift, ← hj]
+    · obtain ⟨o, it⟩ := x
+      cases it <;> simp only [resolveItems] at hj <;> simp only [snapshot, hj, addItem]
+    · intro p hp
+      obtain ⟨q, hq, rfl⟩ := List.mem_map.mp hp
+      have hq' := hOk j q (by rw [hx]; exact hq)
+      obtain ⟨o, it⟩ := q
+      cases it with
+      | val v =>
+        simp only [HItem.Ok] at hq' ⊢
+        exact ⟨hq'.1, by omega⟩
+      | ref k =>
+        simp only [HItem.Ok] at hq' ⊢
+        omega
+
+theorem snapshot_step_barrier [Zero R] [One R] {h : Heap R} (hOk : h.Ok) (i : ℕ)
+    (hok : (Op.barrier (R := R) i).ok h = true) :
+    snapshotItems (step h (.barrier i)) i =
+      addItem (snapshotItems h i) 0 (barrierItem (h.msize i)) false := by
+  simp only [step, hok, if_true, applyOp]
+  rw [snapshotItems_push hOk]
+  · rfl
+  · intro p hp
+    simp only [List.mem_singleton] at hp
+    subst hp
+    simp [HItem.Ok, Comp.WF, Comp.size, barrierItem]
+
+/-- `copy()`: a new pool entry whose tree is the current snapshot with `φ` applied to the leaves -/
+theorem snapshot_step_copy [Zero R] [One R] {h : Heap R} (hOk : h.Ok) (i : ℕ) (φ : R → R)
+    (hi : i < h.size) : snapshot (step h (.copy i φ)) h.size = (snapshot h i).map φ := by
+  have hok : (Op.copy i φ).ok h = true := by simp [Op.ok, hi]
+  simp only [step, hok, if_true, applyOp]
+  rw [snapshot_frozen_cell _ h _ _ _ _ φ (Heap.cell_alloc_self h _), ← snapshotItems_eq hOk i]
+  rfl
+
+/-- frame: an operation on pool entry `t` is invisible from every other entry of rank ≤ rank `t`
+(such an entry cannot reach `t`); operations that create an entry change no existing entry -/
+theorem snapshot_step_frame [Zero R] [One R] {h : Heap R} (hOk : h.Ok) (op : Op R) (k : ℕ)
+    (hk : match op.target with
+      | some t => k ≠ t ∧ h.rank k ≤ h.rank t
+      | none => k < h.size) :
+    snapshot (step h op) k = snapshot h k := by
+  unfold step
+  split
+  · cases op with
+    | new m r => exact snapshot_alloc_frame hOk _ hk
+    | leaf i off k' U => exact snapshot_push_frame hOk i _ hk.1 hk.2
+    | nest i j off => exact snapshot_push_frame hOk i _ hk.1 hk.2
+    | merge i j off =>
+      simp only [applyOp]
+      split
+      · exact snapshot_push_frame hOk i _ hk.1 hk.2
+      · exact snapshot_push_frame hOk i _ hk.1 hk.2
+    | barrier i => exact snapshot_push_frame hOk i _ hk.1 hk.2
+    | copy i φ => exact snapshot_alloc_frame hOk _ hk
+  · rfl
+
+/-! ### consequences on matrices -/
+
+/-- one operation on entry `i` multiplies its matrix on the left by the embedded *current* matrix
+of what was added; merged or nested makes no difference at evaluation time -/
+theorem eval_step_merge_eq_nest {S : Type} [CommRing R] [CommRing S] (φ : R →+* S) {h : Heap R}
+    (hOk : h.Ok) (i j off : ℕ) (hok : (Op.merge (R := R) i j off).ok h = true) :
+    prodItems (h.msize i) ((snapshotItems (step h (.merge i j off)) i).map φ) =
+        prodItems (h.msize i) ((snapshotItems (step h (.nest i j off)) i).map φ) ∧
+      prodItems (h.msize i) ((snapshotItems (step h (.merge i j off)) i).map φ) =
+        embed (h.msize i) off (eval φ h j) * eval φ h i := by
+  have hok' : (Op.nest (R := R) i j off).ok h = true := hok
+  rw [snapshot_step_merge hOk i j off hok, snapshot_step_nest hOk i j off hok']
+  simp only [Op.ok, Bool.and_eq_true, decide_eq_true_eq] at hok
+  have hfit : off + (snapshot h j).size ≤ h.msize i := hok.2
+  have hw := snapshot_WF hOk j
+  rw [prodItems_map, prodItems_map, unitaryOf_addMerged_eq_addNested _ _ _ _ hw hfit]
+  refine ⟨rfl, ?_⟩
+  rw [unitaryOf_add _ _ _ _ false hw hfit, Matrix.map_mul,
+    embed_map φ (map_zero φ) (map_one φ), eval_eq_map_unitaryOf_snapshot,
+    eval_eq_prodItems, prodItems_map]
+  rfl
+
+/-- unitary leaves in, unitary matrices out — for every entry of every pool a history of
+operations with unitary leaves can reach -/
+theorem eval_isUnitary_after_any_history [CommRing R] [StarRing R] (ops : List (Op R))
+    (hops : ∀ op ∈ ops, op.Unitary) (i : ℕ) :
+    IsUnitary (unitaryOf (snapshot (exec (Heap.empty : Heap R) ops) i)) := by
+  have hOk := exec_ok ops
+  have hU : (exec (Heap.empty : Heap R) ops).AllUnitary :=
+    exec_allUnitary_of ops (fun i p hp => by simp [Heap.empty, Heap.items] at hp) hops
+  exact unitaryOf_isUnitary _ (snapshot_WF hOk i) (snapshot_allUnitary hU i)
+
+/-- `copy()` detaches: whatever is done afterwards to other pool entries (in particular to the
+original), the copy keeps the tree it had when it was made -/
+theorem copy_independent [Zero R] [One R] {h : Heap R} (hOk : h.Ok) (i : ℕ) (φ : R → R)
+    (hi : i < h.size) (ops : List (Op R)) (hops : ∀ op ∈ ops, op.target ≠ some h.size) :
+    snapshot (exec (step h (.copy i φ)) ops) h.size = (snapshot h i).map φ := by
+  rw [← snapshot_step_copy hOk i φ hi]
+  have hok : (Op.copy i φ).ok h = true := by simp [Op.ok, hi]
+  apply snapshot_closed
+  · exact exec_cell_ne ops _ (by simp [step, hok, applyOp]) hops
+  · intro p hp j hj
+    simp only [step, hok, if_true, applyOp, Heap.items, Heap.cell_alloc_self] at hp
+    obtain ⟨q, _, rfl⟩ := List.mem_map.mp hp
+    simp at hj
+
+/-- … and growing the copy does not change the original -/
+theorem copy_growth_invisible [Zero R] [One R] {h : Heap R} (hOk : h.Ok) (i : ℕ) (φ : R → R)
+    (hi : i < h.size) (op : Op R) (ht : op.target = some h.size) :
+    snapshot (step (step h (.copy i φ)) op) i = snapshot h i := by
+  have hok : (Op.copy i φ).ok h = true := by simp [Op.ok, hi]
+  have hOk1 : (step h (.copy i φ)).Ok := step_ok hOk _
+  have e1 : snapshot (step h (.copy i φ)) i = snapshot h i :=
+    snapshot_step_frame hOk (.copy i φ) i (by simpa [Op.target] using hi)
+  rw [← e1]
+  apply snapshot_step_frame hOk1 op i
+  rw [ht]
+  simp only [step, hok, if_true, applyOp, Heap.rank, Heap.cell_alloc_self]
+  rw [Heap.cell_alloc_ne _ _ (Nat.ne_of_lt hi)]
+  exact ⟨Nat.ne_of_lt hi, Nat.le_refl _⟩
+
+/-! ## variable parameters -/
+
+section world
+variable {E S : Type}
+
+/-- The matrix reported under an environment is the product over the resolved tree of the leaf
+matrices under that same environment — for every nesting and every pool. -/
+theorem observe_eq_unitaryOf [CommRing S] (w : World E S) (i : ℕ) :
+    observe w i = unitaryOf ((snapshot w.heap i).map (atEnv w.env)) :=
+  eval_eq_unitaryOf_snapshot _ _ _
+
+theorem observeV_toMatrix [CommRing S] (w : World E S) (i : ℕ) :
+    (observeV w i).toMatrix = observe w i := rfl
+
+/-- … and it is the circuit's parametrised matrix evaluated at that environment, positions
+independent of the environment -/
+theorem observe_eq_prod_flatten [CommRing S] (w : World E S) (hOk : w.heap.Ok) (i : ℕ) :
+    observe w i = (unitaryOf (snapshot w.heap i)).map (atEnv w.env) ∧
+      observe w i = prodFlat (w.heap.msize i)
+        (Flat.mapC (atEnv w.env) (flatten (snapshot w.heap i))) := by
+  have hw : (snapshotItems w.heap i).WF (w.heap.msize i) := resolveIt_WF hOk _ i
+  constructor
+  · exact eval_eq_map_unitaryOf_snapshot (R := E → S) (S := S) (atEnvHom w.env) w.heap i
+  · show eval (R := E → S) (S := S) (atEnvHom w.env) w.heap i = _
+    rw [eval_eq_prodItems, prodItems_map (R := E → S) (S := S)]
+    exact unitaryOf_map_eq_prod_flatten (R := E → S) (S := S) (atEnvHom w.env) _ _ hw
+
+/-- `set_value` changes no circuit: every entry of the pool is then observed under the new
+environment (all leaves keep their binding), after any history of re-assignments -/
+theorem observe_after_sets [Zero S] [One S] (w : World E S) (gs : List (E → E)) :
+    (wexec w (gs.map WOp.set)).heap = w.heap ∧
+      (wexec w (gs.map WOp.set)).env = gs.foldl (fun e g => g e) w.env := by
+  induction gs generalizing w with
+  | nil => exact ⟨rfl, rfl⟩
+  | cons g r ih =>
+    have := ih (wstep w (.set g))
+    simpa [wexec, wstep] using this
+
+/-- `copy()` freezes: the copy keeps reporting the matrix the original had at copy time, whatever
+values the parameters receive later and whatever is added to other entries -/
+theorem copy_frozen [CommRing S] (w : World E S) (hOk : w.heap.Ok) (i : ℕ) (hi : i < w.heap.size)
+    (ops : List (WOp E S)) (hops : ∀ op ∈ ops, op.target ≠ some w.heap.size) :
+    let w' := wexec (wstep w (.copy i)) ops
+    (snapshot w'.heap w.heap.size).map (atEnv w'.env) = (snapshot w.heap i).map (atEnv w.env) := by
+  intro w'
+  have key : ∀ (ops : List (WOp E S)) (v : World E S), v.heap.Ok → w.heap.size < v.heap.size →
+      (∀ op ∈ ops, op.target ≠ some w.heap.size) →
+      (wexec v ops).heap.cell w.heap.size = v.heap.cell w.heap.size := by
+    intro ops
+    induction ops with
+    | nil => intro v _ _ _; rfl
+    | cons op r ih =>
+      intro v hv hs ht
+      have hop := ht op (by simp)
+      have hstep : (wstep v op).heap.cell w.heap.size = v.heap.cell w.heap.size ∧
+          v.heap.size ≤ (wstep v op).heap.size ∧ (wstep v op).heap.Ok := by
+        cases op with
+        | struct o =>
+          obtain ⟨a, b⟩ := step_cell_ne v.heap o hs (by simpa [WOp.target] using hop)
+          exact ⟨a, b, step_ok hv o⟩
+        | copy k =>
+          obtain ⟨a, b⟩ := step_cell_ne v.heap (.copy k (freeze v.env)) hs (by simp [Op.target])
+          exact ⟨a, b, step_ok hv _⟩
+        | set g => exact ⟨rfl, Nat.le_refl _, hv⟩
+      have := ih (wstep v op) hstep.2.2 (by omega) (fun o ho => ht o (by simp [ho]))
+      simp only [wexec, List.foldl_cons] at this ⊢
+      rw [this, hstep.1]
+  have hok : (Op.copy i (freeze w.env)).ok w.heap = true := by simp [Op.ok, hi]
+  have h1 : (wstep w (.copy i)).heap = step w.heap (.copy i (freeze w.env)) := rfl
+  have hcell := key ops (wstep w (.copy i)) (by rw [h1]; exact step_ok hOk _)
+    (by rw [h1]; simp [step, hok, applyOp]) hops
+  have hsnap : snapshot w'.heap w.heap.size = (snapshot w.heap i).map (freeze w.env) := by
+    rw [← snapshot_step_copy hOk i (freeze w.env) hi, ← h1]
+    apply snapshot_closed _ _ _ hcell
+    intro p hp j hj
+    simp only [h1, step, hok, if_true, applyOp, Heap.items, Heap.cell_alloc_self] at hp
+    obtain ⟨q, _, rfl⟩ := List.mem_map.mp hp
+    simp at hj
+  rw [hsnap, Comp.map_map, atEnv_comp_freeze]
+
+/-- `//`, `//=`, `@` (a shallow `copy.copy`, a barrier and a merge) keep the binding: after the
+operation and any re-assignment of values, the result is the product under the *new* values -/
+theorem merge_keeps_binding [CommRing S] (w : World E S) (hOk : w.heap.Ok) (i j off : ℕ)
+    (hok : (Op.merge (R := E → S) i j off).ok w.heap = true) (g : E → E) :
+    let w' := wexec w [.struct (.merge i j off), .set g]
+    prodItems (w.heap.msize i) ((snapshotItems w'.heap i).map (atEnv w'.env)) =
+      embed (w.heap.msize i) off (eval (atEnv (g w.env)) w.heap j) *
+        eval (atEnv (g w.env)) w.heap i :=
+  (eval_step_merge_eq_nest (R := E → S) (S := S) (atEnvHom (g w.env)) hOk i j off hok).2
+
+end world
+
+/-! ### non-vacuity of the heap theorems: a history with nesting by reference, growth after
+nesting, a merge and a copy; all operations admissible, leaves unitary -/
+
+def exHist : List (Op GQ) :=
+  [.new 3 1, .new 2 0, .leaf 1 0 2 swap2, .nest 0 1 1, .leaf 1 1 1 phaseI, .merge 0 1 0,
+   .barrier 0, .copy 0 id, .leaf 0 0 1 phaseI]
+
+example : ∀ op ∈ exHist, op.Unitary := by
+  have h1 : IsUnitary swap2 := by unfold IsUnitary; decide +kernel
+  have h2 : IsUnitary phaseI := by unfold IsUnitary; decide +kernel
+  have h3 : PreservesUnitary (id : GQ → GQ) := fun k U hU => by simpa using hU
+  intro op hop
+  simp only [exHist, List.mem_cons, List.not_mem_nil, or_false] at hop
+  rcases hop with rfl | rfl | rfl | rfl | rfl | rfl | rfl | rfl | rfl
+  · exact True.intro
+  · exact True.intro
+  · exact h1
+  · exact True.intro
+  · exact h2
+  · exact True.intro
+  · exact True.intro
+  · exact h3
+  · exact h2
+
+example : (exec (Heap.empty : Heap GQ) exHist).size = 3 ∧
+    ((exec (Heap.empty : Heap GQ) exHist).items 0).length = 5 := by decide +kernel
+
 end PM.C01
